@@ -33,7 +33,7 @@ def plan(tier, seed):
                [{"n_cases": 2, "mode": "A", "params": {"huge": True}}]
     return [{"n_cases": 2200, "mode": "A", "hashseed": i % 4} for i in range(14)] + \
            [{"n_cases": 1200, "mode": "B", "hashseed": i} for i in range(2)] + \
-           [{"n_cases": 2, "mode": "A", "params": {"huge": True}, "hashseed": i} for i in range(3)]
+           [{"n_cases": 1, "mode": "A", "params": {"huge": True}, "hashseed": i % 4} for i in range(10)]
 
 
 
@@ -47,7 +47,7 @@ def huge_case(rng):
     lo = rng.randint(200, 700)
     for _ in range(rng.randint(4, 6)):
         r = list(base)
-        mid = list(range(lo, lo + rng.choice([4, 6, 8])))
+        mid = list(range(lo, lo + rng.choice([5, 6, 6, 7])))
         vals = [r[i] for i in mid]
         rng.shuffle(vals)
         for i, v in zip(mid, vals):
